@@ -10,7 +10,7 @@ use crate::rng::Rng;
 use crate::scenario::*;
 
 fn stack_walker(g: &mut Gen, model: &Model, tree: &[Node], has_links: bool, stats: &mut GenStats, max_layers: usize) -> Walker {
-    let base = g.pick_dir(model, 55);
+    let base = g.pick_base(model, 55, true);
     let link = if has_links && g.rng.chance(1, 2) { Link::ReadTarget } else { Link::ReadFile };
     let source = underlying_source(g, model, &base, stats);
     let mut w = Walker {
@@ -60,6 +60,7 @@ fn stack_walker(g: &mut Gen, model: &Model, tree: &[Node], has_links: bool, stat
 pub fn gen_stack_scenario(rng: &mut Rng, tier: Tier, stats: &mut GenStats, prop: &str, max_layers: usize, max_walkers: usize) -> Scenario {
     let mut g = Gen::new(rng, tier);
     g.spine_odds = 15;
+    g.link_base_pct = 20;
     // Mostly fault-free; in a fifth of the runs the tree also carries faults (bad links, restricted
     // directories), because "what was yielded just before" includes error items. The differential
     // reference sees the same faults, so no clause changes.
